@@ -745,3 +745,142 @@ func TestC33ReplayHex(t *testing.T) {
 	r := c33h.Guard(name, in, func() (any, error) { return d.Decode(in) })
 	t.Logf("len=%d alloc=%d mallocs=%d err=%v panic=%v", len(in), r.Alloc, r.Mallocs, r.Err, r.Panic)
 }
+
+// ---------------------------------------------------------------- scaling (many small repeated elements)
+
+func c33Elem(sz, i int) []byte {
+	b := make([]byte, sz)
+	for j := range b {
+		b[j] = byte(i*31 + j*7 + 1)
+	}
+	return b
+}
+
+func c33Elems(n, sz int) [][]byte {
+	out := make([][]byte, n)
+	for i := range out {
+		out[i] = c33Elem(sz, i)
+	}
+	return out
+}
+
+func c33ManyExtrinsics(n, sz int) []types.Extrinsic {
+	out := make([]types.Extrinsic, n)
+	for i := range out {
+		out[i] = c33Elem(sz, i)
+	}
+	return out
+}
+
+func c33ManyDigests(n, sz int) types.Digest {
+	d := types.NewDigest()
+	for i := 0; i < n; i++ {
+		var err error
+		switch i % 3 {
+		case 0:
+			err = d.Add(types.PreRuntimeDigest{ConsensusEngineID: types.BabeEngineID, Data: c33Elem(sz, i)})
+		case 1:
+			err = d.Add(types.SealDigest{ConsensusEngineID: types.BabeEngineID, Data: c33Elem(sz, i)})
+		default:
+			err = d.Add(types.ConsensusDigest{ConsensusEngineID: types.GrandpaEngineID, Data: c33Elem(sz, i)})
+		}
+		if err != nil {
+			panic(err)
+		}
+	}
+	return d
+}
+
+func c33Scenarios() []c33h.Scenario {
+	hash := func(i int) common.Hash { return common.BytesToHash(c33Elem(32, i)) }
+	return []c33h.Scenario{
+		{Name: "BlockResponseMessage/one-block-many-body-extrinsics", D: c33Decoder("BlockResponseMessage"), Build: func(n, sz int) any {
+			return &messages.BlockResponseMessage{BlockData: []*types.BlockData{{Hash: hash(1), Body: types.NewBody(c33ManyExtrinsics(n, sz))}}}
+		}},
+		{Name: "BlockResponseMessage/many-blocks", D: c33Decoder("BlockResponseMessage"), Build: func(n, sz int) any {
+			m := &messages.BlockResponseMessage{}
+			for i := 0; i < n; i++ {
+				j := c33Elem(sz, i)
+				bd := &types.BlockData{Hash: hash(i), Justification: &j}
+				if i%4 == 0 {
+					bd.Body = types.NewBody(c33ManyExtrinsics(2, sz))
+				}
+				m.BlockData = append(m.BlockData, bd)
+			}
+			return m
+		}},
+		{Name: "BlockResponseMessage/header-many-digest-items", D: c33Decoder("BlockResponseMessage"), Build: func(n, sz int) any {
+			return &messages.BlockResponseMessage{BlockData: []*types.BlockData{{Hash: hash(1),
+				Header: &types.Header{ParentHash: hash(2), Number: 7, StateRoot: hash(3), ExtrinsicsRoot: hash(4), Digest: c33ManyDigests(n, sz)}}}}
+		}},
+		{Name: "BlockAnnounceMessage/many-digest-items", D: c33Decoder("BlockAnnounceMessage"), Build: func(n, sz int) any {
+			return &BlockAnnounceMessage{ParentHash: hash(2), Number: 7, StateRoot: hash(3), ExtrinsicsRoot: hash(4), Digest: c33ManyDigests(n, sz), BestBlock: true}
+		}},
+		{Name: "TransactionMessage/many-extrinsics", D: c33Decoder("TransactionMessage"), Build: func(n, sz int) any {
+			return &TransactionMessage{Extrinsics: c33ManyExtrinsics(n, sz)}
+		}},
+		{Name: "Body/many-extrinsics", D: c33Decoder("Body"), Build: func(n, sz int) any {
+			return types.NewBody(c33ManyExtrinsics(n, sz))
+		}},
+		{Name: "LightRequest/many-keys", D: c33Decoder("LightRequest"), Build: func(n, sz int) any {
+			l := NewLightRequest()
+			l.RemoteReadRequest.Keys = c33Elems(n/2, sz)
+			l.RemoteReadChildRequest.Keys = c33Elems(n-n/2, sz)
+			return l
+		}},
+		{Name: "LightResponse/many-proof-nodes-and-roots", D: c33Decoder("LightResponse"), Build: func(n, sz int) any {
+			l := NewLightResponse()
+			l.RemoteChangesResponse.Proof = c33Elems(n, sz)
+			for i := 0; i < n; i++ {
+				l.RemoteChangesResponse.Roots = append(l.RemoteChangesResponse.Roots, []Pair{{First: c33Elem(sz, i), Second: c33Elem(sz, i+1)}})
+			}
+			return l
+		}},
+		{Name: "LightResponse/many-headers", D: c33Decoder("LightResponse"), Build: func(n, sz int) any {
+			l := NewLightResponse()
+			for i := 0; i < n; i++ {
+				if i%8 == 0 {
+					l.RemoteHeaderResponse.Header = append(l.RemoteHeaderResponse.Header,
+						&types.Header{ParentHash: hash(i), Number: uint(i), Digest: c33ManyDigests(1, sz)})
+				} else {
+					l.RemoteHeaderResponse.Header = append(l.RemoteHeaderResponse.Header, nil)
+				}
+			}
+			return l
+		}},
+		{Name: "StateRequest/many-start-keys", D: c33Decoder("StateRequest"), Build: func(n, sz int) any {
+			return &messages.StateRequest{Block: hash(1), Start: c33Elems(n, sz)}
+		}},
+		{Name: "StateResponse/one-entry-many-key-values", D: c33Decoder("StateResponse"), Build: func(n, sz int) any {
+			e := messages.KeyValueStateEntry{StateRoot: hash(1), Complete: true, StateEntries: make(trie.Entries, n)}
+			for i := range e.StateEntries {
+				e.StateEntries[i] = trie.Entry{Key: c33Elem(sz+1, i), Value: c33Elem(sz, i)}
+			}
+			return &messages.StateResponse{Entries: []messages.KeyValueStateEntry{e}}
+		}},
+		{Name: "StateResponse/many-entries", D: c33Decoder("StateResponse"), Build: func(n, sz int) any {
+			m := &messages.StateResponse{}
+			for i := 0; i < n; i++ {
+				m.Entries = append(m.Entries, messages.KeyValueStateEntry{StateRoot: hash(i),
+					StateEntries: trie.Entries{{Key: c33Elem(sz+1, i), Value: c33Elem(sz, i)}}})
+			}
+			return m
+		}},
+	}
+}
+
+// TestC33Scaling: per decoder family a valid message dominated by many small
+// repeated elements at N and 8N elements (8N encoding 100-300 KiB); the
+// measured allocation (bytes and objects, collector off, one goroutine) may
+// grow at most 16x, and the decoded values re-encode to the inputs. Runs the
+// scenarios sequentially in this process. No wall-clock oracle.
+func TestC33Scaling(t *testing.T) {
+	defer kit.Flush()
+	old := c33h.HangAfter
+	c33h.HangAfter = 10 * time.Minute
+	defer func() { c33h.HangAfter = old }()
+	seed := c33h.ScalingSeed()
+	for i, sc := range c33Scenarios() {
+		c33h.RunScaling(t, sc, seed*100+i)
+	}
+}
